@@ -186,6 +186,15 @@ func (f *Facts) assume(e ast.Expr, val bool) {
 	if ra, ok := canonRel(f.info, e); ok {
 		f.rel[atom] = ra
 	}
+	// x == nil decided and x ≡ y: y == nil is decided too
+	if strings.HasSuffix(atom, " == nil") {
+		x := strings.TrimSuffix(atom, " == nil")
+		for k, v := range f.m {
+			if v && strings.HasPrefix(k, x+" ≡ ") {
+				f.m[strings.TrimPrefix(k, x+" ≡ ")+" == nil"] = val != flip
+			}
+		}
+	}
 }
 
 // setRel records a synthetic relational fact x op y = val.
@@ -330,6 +339,113 @@ func (g *Graph) GuardFacts() *Solution[Facts] {
 }
 
 func (g *Graph) guardFacts() *Solution[Facts] {
+	return Solve(g, g.factsLattice())
+}
+
+// FactsPS is a bounded disjunction of fact states (path-sensitive facts): a property holds at a point when it
+// holds in every disjunct. Used where the plain intersection at joins loses a correlation between two tests.
+type FactsPS []Facts
+
+const maxDisjuncts = 8
+
+func factsKey(f Facts) string {
+	ks := make([]string, 0, len(f.m))
+	for k, v := range f.m {
+		if v {
+			ks = append(ks, "+"+k)
+		} else {
+			ks = append(ks, "-"+k)
+		}
+	}
+	sort.Strings(ks)
+	return strings.Join(ks, ";")
+}
+
+// GuardFactsPS solves the guard-fact analysis path-sensitively (up to maxDisjuncts states per point).
+func (g *Graph) GuardFactsPS() *Solution[FactsPS] {
+	if g.factsPSCache != nil {
+		return g.factsPSCache
+	}
+	base := g.factsLattice()
+	norm := func(in FactsPS) FactsPS {
+		seen := map[string]bool{}
+		var out FactsPS
+		for _, f := range in {
+			if f.dead {
+				continue
+			}
+			k := factsKey(f)
+			if seen[k] {
+				continue
+			}
+			seen[k] = true
+			out = append(out, f)
+		}
+		sort.Slice(out, func(i, j int) bool { return factsKey(out[i]) < factsKey(out[j]) })
+		for len(out) > maxDisjuncts {
+			n := len(out)
+			out[n-2] = base.Join(out[n-2], out[n-1])
+			out = out[:n-1]
+		}
+		return out
+	}
+	l := Lattice[FactsPS]{
+		Init: FactsPS{base.Init},
+		Join: func(a, b FactsPS) FactsPS { return norm(append(append(FactsPS{}, a...), b...)) },
+		Widen: func(a, b FactsPS) FactsPS {
+			// fold everything into one state and widen it: guarantees termination on loops
+			all := append(append(FactsPS{}, a...), b...)
+			if len(all) == 0 {
+				return all
+			}
+			acc := all[0]
+			for _, f := range all[1:] {
+				acc = base.Widen(acc, f)
+			}
+			return FactsPS{acc}
+		},
+		Eq: func(a, b FactsPS) bool {
+			if len(a) != len(b) {
+				return false
+			}
+			for i := range a {
+				if !base.Eq(a[i], b[i]) {
+					return false
+				}
+			}
+			return true
+		},
+		Step: func(s FactsPS, st Step) FactsPS {
+			out := make(FactsPS, 0, len(s))
+			for _, f := range s {
+				out = append(out, base.Step(f, st))
+			}
+			return norm(out)
+		},
+	}
+	g.factsPSCache = Solve(g, l)
+	return g.factsPSCache
+}
+
+// KnownAll reports the truth of e when it is the same in every disjunct.
+func (ps FactsPS) KnownAll(e ast.Expr) (bool, bool) {
+	if len(ps) == 0 {
+		return false, false
+	}
+	v0, ok := ps[0].Known(e)
+	if !ok {
+		return false, false
+	}
+	for _, f := range ps[1:] {
+		v, ok := f.Known(e)
+		if !ok || v != v0 {
+			return false, false
+		}
+	}
+	return v0, true
+}
+
+func (g *Graph) factsLattice() Lattice[Facts] {
 	info := g.Info
 	l := Lattice[Facts]{
 		Init:  Facts{m: map[string]bool{}, rel: map[string]relAtom{}, info: info},
@@ -469,6 +585,33 @@ func (g *Graph) guardFacts() *Solution[Facts] {
 						}
 					}
 				}
+				// x := y / x = y with y a variable or field path of a nil-able type: remember that x is a copy of y
+				// ("x ≡ y"), so that a later nil test of x also decides y (killed when either is assigned)
+				if as, ok := st.Node.(*ast.AssignStmt); ok && len(as.Lhs) == len(as.Rhs) && (as.Tok == token.ASSIGN || as.Tok == token.DEFINE) {
+					for i, rhs := range as.Rhs {
+						lid, isId := as.Lhs[i].(*ast.Ident)
+						if !isId || lid.Name == "_" {
+							continue
+						}
+						rhs = ast.Unparen(rhs)
+						switch rhs.(type) {
+						case *ast.Ident, *ast.SelectorExpr:
+						default:
+							continue
+						}
+						if isNil(info, rhs) {
+							continue
+						}
+						if t := info.TypeOf(rhs); t != nil {
+							switch t.Underlying().(type) {
+							case *types.Pointer, *types.Interface, *types.Slice, *types.Map, *types.Chan, *types.Signature:
+								if rs := exprStr(rhs); !mentions(rs, lid.Name) {
+									n.m[lid.Name+" ≡ "+rs] = true
+								}
+							}
+						}
+					}
+				}
 				// X = make([]T, n)  =>  len(X) == n ; X = T{F: make([]E, n)} => len(X.F) == n ;
 				// x = <const | len(Y) | ident>  =>  x == rhs (scalar copies used by later bounds reasoning)
 				if as, ok := st.Node.(*ast.AssignStmt); ok && len(as.Lhs) == len(as.Rhs) && (as.Tok == token.ASSIGN || as.Tok == token.DEFINE) {
@@ -548,7 +691,7 @@ func (g *Graph) guardFacts() *Solution[Facts] {
 			return s
 		},
 	}
-	return Solve(g, l)
+	return l
 }
 
 func mentionsFieldOf(atom, rootDot string) bool {
